@@ -906,7 +906,9 @@ fn run_group(rng: &mut Rng, stream: bool, id: &str, prof: &Profile) {
     // `big` profile, half of the cases: a WIDE group - built from an iterator of 33..72 members none of which has
     // anything to say on its first poll (more members than any per-poll budget or bit block)
     let wide = prof.is("big") && rng.chance(50);
-    let ctor_kind = if wide { 3 } else if prof.is("drain") || prof.is("refill") || ctor_roll < 55 { 0 } else if ctor_roll < 65 { 1 } else if ctor_roll < 82 { 2 } else { 3 };
+    // `drain`: also groups built by `with_capacity(k)` for a small k > 0 (the readiness set then starts with a partly used
+    // last word, and the group grows past it while it is being drained)
+    let ctor_kind = if wide { 3 } else if prof.is("drain") { if ctor_roll < 60 { 0 } else { 2 } } else if prof.is("refill") || ctor_roll < 55 { 0 } else if ctor_roll < 65 { 1 } else if ctor_roll < 82 { 2 } else { 3 };
     let cap0 = rng.below(7);
     let iter_n = if wide { 33 + rng.below(40) } else { rng.below(4) };
     let mut inserts = 0usize;
